@@ -146,26 +146,37 @@ Proof.
 Qed.
 
 (* ---- calls: one operand per parameter, each of the parameter's type, writable where the parameter is out / inout ---- *)
-Lemma args_ok_spec : forall params args, args_ok params args = None ->
+Lemma args_ok_spec : forall params nd args, args_ok nd params args = None ->
   Forall2 (fun (p : N * ty) a =>
              (same (e_ty a) (snd p) = true \/ exists i, strip (snd p) = TParam i) /\
-             (fst p <> 0 -> writable a = true)) params args.
+             (fst p <> 0 -> writable a = true)) (firstn (List.length args) params) args.
 Proof.
-  induction params as [|[dir pt] ps IH]; intros [|a r] E; cbn [args_ok] in E; try discriminate; [constructor|].
-  split_err. constructor; [|apply IH; assumption]. cbn [fst snd]. split.
+  induction params as [|[dir pt] ps IH]; intros nd [|a r] E; cbn [args_ok] in E; try discriminate; cbn [List.length firstn]; [constructor|constructor|].
+  split_err. constructor; [|eapply IH; eassumption]. cbn [fst snd]. split.
   - match goal with H : same _ _ || _ = true |- _ => apply orb_true_iff in H as [H|H] end; [left; assumption|].
     right. destruct (strip pt); try discriminate. eexists; reflexivity.
   - intros Hd. match goal with H : (dir =? 0) || _ = true |- _ => apply orb_true_iff in H as [Hz|Hz] end; [|assumption].
     apply N.eqb_eq in Hz. contradiction.
 Qed.
 
-Theorem wt_call_operands intrinsic params ret t lv args :
-  check_node (KCall false intrinsic params ret) t lv args = None ->
+Lemma args_ok_count : forall params nd args, args_ok nd params args = None ->
+  (N.to_nat nd <= List.length args <= List.length params)%nat.
+Proof.
+  induction params as [|[dir pt] ps IH]; intros nd [|a r] E; cbn [args_ok] in E; try discriminate; cbn [List.length].
+  - unfold req in E. destruct (nd =? 0) eqn:Z; [|discriminate]. apply N.eqb_eq in Z. subst. cbn. lia.
+  - unfold req in E. destruct (nd =? 0) eqn:Z; [|discriminate]. apply N.eqb_eq in Z. subst. cbn. lia.
+  - split_err. match goal with H : args_ok _ _ _ = None |- _ => apply IH in H end. lia.
+Qed.
+
+Theorem wt_call_operands intrinsic nd params ret t lv args :
+  check_node (KCall false intrinsic nd params ret) t lv args = None ->
   Forall2 (fun (p : N * ty) a =>
              (same (e_ty a) (snd p) = true \/ exists i, strip (snd p) = TParam i) /\
-             (fst p <> 0 -> writable a = true)) params args /\ t = ret /\ lv = false.
+             (fst p <> 0 -> writable a = true)) (firstn (List.length args) params) args /\
+  (N.to_nat nd <= List.length args <= List.length params)%nat /\ t = ret /\ lv = false.
 Proof.
-  intros C. cbn [check_node] in C. split_err. split; [apply args_ok_spec; assumption|]. fin.
+  intros C. cbn [check_node] in C. split_err. split; [eapply args_ok_spec; eassumption|].
+  split; [eapply args_ok_count; eassumption|]. fin.
 Qed.
 
 (* ---- statements: a returned value has the function's type, an initialiser the variable's ---- *)
